@@ -12,6 +12,7 @@ from .. import astq
 from .. import sym as S
 from ..cfg import CFG, header_walk, walk_no_defs
 from ..dataflow import ReachingDefs, containing_node
+from ..report import MISSING
 from ..model import AnalysisError
 from ..symeval import SymEval
 from . import cli_common as cc
@@ -333,7 +334,7 @@ def commands(ctx, f):
         for n in names:
             handled.setdefault(n, []).append(node)
     ok_else = len(final_else) == 1 and isinstance(final_else[0], ast.Raise) and astq.is_name(final_else[0].exc, "error")
-    ctx.check(ok_else, R, f, final_else[0] if final_else else loop, "an unknown command raises the caller's error",
+    ctx.check(ok_else, R, f, final_else[0] if final_else else MISSING(loop), "an unknown command raises the caller's error",
               "the dispatch does not end in `else: raise error`; an unknown command would be ignored or mis-decoded")
     for c in sorted(ALL_CMDS):
         ctx.check(len(handled.get(c, [])) == 1, R, f, loop, "%s is dispatched exactly once" % c,
@@ -393,7 +394,7 @@ def commands(ctx, f):
            and isinstance(n.test.ops[0], ast.GtE) and n.body and isinstance(n.body[0], ast.Raise)]
     okr = bool(rej) and ((isinstance(rej[0].test.comparators[0], ast.Constant) and rej[0].test.comparators[0].value == eof)
                          or astq.is_name(rej[0].test.comparators[0], "TYPE_EOF"))
-    ctx.check(okr, R, f, rej[0] if rej else f.node, "a sample type at or beyond TYPE_EOF is rejected", "ftype >= TYPE_EOF is not rejected")
+    ctx.check(okr, R, f, rej[0] if rej else MISSING(f.node), "a sample type at or beyond TYPE_EOF is rejected", "ftype >= TYPE_EOF is not rejected")
     # versions
     ev = SymEval(prog, f, rename={}).run()
     vr = [g for g, r in ev.raises if "MAX_SUPPORTED_VERSION" in S.show(g) or "MIN_SUPPORTED_VERSION" in S.show(g)]
@@ -420,7 +421,7 @@ def eof(ctx, f):
         for fn in g.nested.values():
             if hasattr(fn, "body_nodes"):
                 tries += [n for n in fn.body_nodes() if isinstance(n, ast.Try)]
-        ctx.check(not tries, R, g, tries[0] if tries else g.node, "no exception handler between the bit reader and read_signal in %s" % g.name,
+        ctx.check(not tries, R, g, tries[0] if tries else MISSING(g.node), "no exception handler between the bit reader and read_signal in %s" % g.name,
                   "%s contains a try/except that can swallow the premature-end error" % g.name)
     us = prog.func("util.read_signal")
     sph = [n for n in us.body_nodes() if isinstance(n, ast.Call) and isinstance(n.func, ast.Name) and n.func.id == "sphere_read_signal"]
@@ -483,8 +484,8 @@ def predictors(ctx, f):
     # ZERO
     body = _branch_of(f, "FN_ZERO")
     ok = body is not None and len(body) == 1 and isinstance(body[0], ast.Assign) and isinstance(body[0].value, ast.Constant) and body[0].value.value == 0 \
-        and astq.text(body[0].targets[0]).replace(" ", "") in ("cbuffer[nwrap:blocksize+nwrap]", "cbuffer[nwrap:nwrap+blocksize]")
-    ctx.check(ok, R, f, body[0] if body else f.node, "ZERO fills the block with zeros", "FN_ZERO does not zero cbuffer[nwrap:nwrap+blocksize]")
+        and astq.in_texts(body[0].targets[0], ("cbuffer[nwrap:blocksize+nwrap]", "cbuffer[nwrap:nwrap+blocksize]",))
+    ctx.check(ok, R, f, body[0] if body else MISSING(f.node), "ZERO fills the block with zeros", "FN_ZERO does not zero cbuffer[nwrap:nwrap+blocksize]")
     # QLPC: the else branch of the DIFF3 test
     d3 = [n for n in f.body_nodes() if isinstance(n, ast.If) and _names_in_test(n.test, "cmd") == ["FN_DIFF3"]]
     ctx.need(len(d3) == 1 and d3[0].orelse, R, "QLPC branch not found")
@@ -492,7 +493,7 @@ def predictors(ctx, f):
     loops = [s for s in q if isinstance(s, ast.For)]
     ctx.need(len(loops) == 2, R, "QLPC branch no longer has a coefficient loop and a sample loop")
     coefloop, samp = loops
-    ok = astq.text(coefloop.iter) == "range(nlpc)" and len(coefloop.body) == 1 and astq.text(coefloop.body[0]).replace(" ", "") == "qlpc[i]=var_get(LPCQUANT)"
+    ok = astq.text(coefloop.iter) == "range(nlpc)" and len(coefloop.body) == 1 and astq.eq_text(coefloop.body[0], "qlpc[i]=var_get(LPCQUANT)")
     ctx.check(ok, R, f, coefloop, "nlpc quantised coefficients are read with LPCQUANT bits each", "QLPC coefficient loop is %s" % astq.text(coefloop))
     inner = [s for s in samp.body if isinstance(s, ast.For)]
     ctx.need(len(inner) == 1, R, "QLPC inner prediction loop not found")
@@ -516,23 +517,23 @@ def predictors(ctx, f):
     ctx.check(ok, R, f, samp, "QLPC prediction is lpcqoffset + sum_j qlpc[j] * x[i-j-1] over j < nlpc",
               "QLPC accumulation is not lpcqoffset + sum_{j<nlpc} qlpc[j]*cbuffer[i-j-1]")
     last = samp.body[-1]
-    okl = isinstance(last, ast.Assign) and astq.text(last.targets[0]) == "cbuffer[i]" and astq.text(last.value).replace(" ", "") == "var_get(resn)+(sum>>LPCQUANT)"
+    okl = isinstance(last, ast.Assign) and astq.text(last.targets[0]) == "cbuffer[i]" and astq.eq_text(last.value, "var_get(resn)+(sum>>LPCQUANT)")
     ctx.check(okl, R, f, last, "QLPC sample = residual + (prediction >> LPCQUANT)", "QLPC sample is %s" % astq.text(last))
     pre = [s for s in q if isinstance(s, ast.AugAssign) and isinstance(s.op, ast.Sub)]
-    okp = len(pre) == 1 and astq.text(pre[0].target).replace(" ", "") == "cbuffer[nwrap-nlpc:nwrap]" and astq.text(pre[0].value) == "coffset"
-    ctx.check(okp, R, f, pre[0] if pre else samp, "QLPC removes the running mean from the nlpc history samples first",
+    okp = len(pre) == 1 and astq.eq_text(pre[0].target, "cbuffer[nwrap-nlpc:nwrap]") and astq.text(pre[0].value) == "coffset"
+    ctx.check(okp, R, f, pre[0] if pre else MISSING(samp), "QLPC removes the running mean from the nlpc history samples first",
               "QLPC does not subtract coffset from cbuffer[nwrap-nlpc:nwrap]")
     post = [s for s in ast.walk(ast.Module(body=q, type_ignores=[])) if isinstance(s, ast.AugAssign) and isinstance(s.op, ast.Add)
             and astq.text(s.value) == "coffset"]
-    okq = len(post) == 1 and astq.text(post[0].target).replace(" ", "") in ("cbuffer[nwrap:blocksize+nwrap]", "cbuffer[nwrap:nwrap+blocksize]")
-    ctx.check(okq, R, f, post[0] if post else samp, "QLPC adds the running mean back to the new block", "QLPC does not add coffset back to the block")
+    okq = len(post) == 1 and astq.in_texts(post[0].target, ("cbuffer[nwrap:blocksize+nwrap]", "cbuffer[nwrap:nwrap+blocksize]",))
+    ctx.check(okq, R, f, post[0] if post else MISSING(samp), "QLPC adds the running mean back to the new block", "QLPC does not add coffset back to the block")
     # constants of the recursion
     consts = module_consts(prog)
     ctx.check(consts.get("LPCQUANT") == 5 and consts.get("V2LPCQOFFSET") == 32 and consts.get("NWRAP") == 3, R, f, f.node,
               "LPCQUANT = 5, V2LPCQOFFSET = 1 << LPCQUANT = 32, NWRAP = 3 as in shorten", "LPC constants are LPCQUANT=%s V2LPCQOFFSET=%s NWRAP=%s"
               % (consts.get("LPCQUANT"), consts.get("V2LPCQOFFSET"), consts.get("NWRAP")))
     nw = [n for n in f.node.body if isinstance(n, ast.Assign) and astq.is_name(n.targets[0], "nwrap")]
-    ctx.check(len(nw) == 1 and astq.text(nw[0].value).replace(" ", "") in ("max(maxnlpc,NWRAP)", "max(NWRAP,maxnlpc)"), R, f, nw[0] if nw else f.node,
+    ctx.check(len(nw) == 1 and astq.in_texts(nw[0].value, ("max(maxnlpc,NWRAP)", "max(NWRAP,maxnlpc)",)), R, f, nw[0] if nw else MISSING(f.node),
               "the history holds max(maxnlpc, NWRAP) samples", "nwrap is %s" % (astq.text(nw[0].value) if nw else None))
 
 
@@ -551,7 +552,7 @@ def means(ctx, f):
     ctx.need(len(block) == 1, R, "block-command branch not found")
     stmts = block[0].body
     rd_if = [s for s in stmts if isinstance(s, ast.If) and astq.text(s.test) == "nmean"]
-    up_if = [s for s in stmts if isinstance(s, ast.If) and astq.text(s.test).replace(" ", "") in ("nmean>0", "nmean")][-1:]
+    up_if = [s for s in stmts if isinstance(s, ast.If) and astq.in_texts(s.test, ("nmean>0", "nmean",))][-1:]
     ctx.need(len(rd_if) == 1 and up_if and up_if[0] is not rd_if[0], R, "running-mean read / update statements not found")
     c99 = "_sphere.c99_div"
     for ver in (1, 2):
@@ -588,8 +589,8 @@ def means(ctx, f):
             ctx.bad(R, f, up_if[0], "for shorten version %d the stored block mean is %s; the reference decoder stores %s"
                     % (ver, S.canon(got2), S.canon(want2)), "block mean update matches the reference (version %d)" % ver)
     # history shift of the means: offset[chan, :nmean-1] = offset[chan, 1:nmean]
-    sh = [s for s in up_if[0].body if isinstance(s, ast.Assign) and astq.text(s.targets[0]).replace(" ", "") == "offset[chan,:nmean-1]"]
-    ctx.check(len(sh) == 1 and astq.text(sh[0].value).replace(" ", "") == "offset[chan,1:nmean]", R, f, sh[0] if sh else up_if[0],
+    sh = [s for s in up_if[0].body if isinstance(s, ast.Assign) and astq.eq_text(s.targets[0], "offset[chan,:nmean-1]")]
+    ctx.check(len(sh) == 1 and astq.eq_text(sh[0].value, "offset[chan,1:nmean]"), R, f, sh[0] if sh else MISSING(up_if[0]),
               "older block means are shifted down by one before the new one is stored", "the block-mean history is not shifted as offset[chan, :nmean-1] = offset[chan, 1:nmean]")
     # truncating division on possibly negative sums
     R2 = "R-C13-c-division"
@@ -600,8 +601,8 @@ def means(ctx, f):
                         "truncating division (c99_div)", "sums are divided with c99_div")
     g = prog.func("_sphere.c99_div")
     rets = astq.returns_of(g)
-    okd = len(rets) == 1 and astq.text(rets[0].value).replace(" ", "") in ("int(float(a)/b)", "int(a/b)")
-    ctx.check(okd, R2, g, rets[0] if rets else g.node, "c99_div truncates toward zero", "c99_div is %s" % (astq.text(rets[0].value) if rets else None))
+    okd = len(rets) == 1 and astq.in_texts(rets[0].value, ("int(float(a)/b)", "int(a/b)",))
+    ctx.check(okd, R2, g, rets[0] if rets else MISSING(g.node), "c99_div truncates toward zero", "c99_div is %s" % (astq.text(rets[0].value) if rets else None))
     ctx.ok(R2, f.loc(rd_if[0]), "running-mean sums are divided only through c99_div")
 
 
@@ -617,7 +618,7 @@ def uniform_post(ctx, f):
     cd = cfg.control_deps()
     nb = cfg.node(block)
     wanted = {
-        "history wrap": lambda s: isinstance(s, ast.Assign) and astq.text(s.targets[0]).replace(" ", "") == "cbuffer[:nwrap]",
+        "history wrap": lambda s: isinstance(s, ast.Assign) and astq.eq_text(s.targets[0], "cbuffer[:nwrap]"),
         "fix_bitshift": lambda s: isinstance(s, ast.Expr) and isinstance(s.value, ast.Call) and astq.is_name(s.value.func, "fix_bitshift"),
         "channel advance": lambda s: isinstance(s, ast.Assign) and astq.is_name(s.targets[0], "chan"),
     }
@@ -633,22 +634,22 @@ def uniform_post(ctx, f):
                       "%s is skipped for some block commands (it is conditional on %s); blocks of that kind are stored without it"
                       % (what, astq.text(cmd_deps[0].test) if cmd_deps else "?"))
     # wrap copies the last nwrap samples of the block to the front
-    wrap = [s for s in ast.walk(block) if isinstance(s, ast.Assign) and astq.text(s.targets[0]).replace(" ", "") == "cbuffer[:nwrap]"][-1]
-    ctx.check(astq.text(wrap.value).replace(" ", "") in ("cbuffer[blocksize:blocksize+nwrap]", "cbuffer[blocksize:nwrap+blocksize]"), R, f, wrap,
+    wrap = [s for s in ast.walk(block) if isinstance(s, ast.Assign) and astq.eq_text(s.targets[0], "cbuffer[:nwrap]")][-1]
+    ctx.check(astq.in_texts(wrap.value, ("cbuffer[blocksize:blocksize+nwrap]", "cbuffer[blocksize:nwrap+blocksize]",)), R, f, wrap,
               "the last nwrap samples become the next block's history", "history wrap copies %s" % astq.text(wrap.value))
     # interleave when the last channel is done
-    il = [s for s in ast.walk(block) if isinstance(s, ast.If) and astq.text(s.test).replace(" ", "") == "chan==nchan-1"]
+    il = [s for s in ast.walk(block) if isinstance(s, ast.If) and astq.eq_text(s.test, "chan==nchan-1")]
     ctx.check(len(il) == 1, R, f, block, "samples are emitted when the last channel of a block is decoded", "no `if chan == nchan - 1` emission step")
     if il:
-        stores = [s for s in il[0].body if isinstance(s, ast.Assign) and astq.text(s.targets[0]).replace(" ", "") == "data[:nitem]"]
-        ok = stores and astq.text(stores[0].value).replace(" ", "") in ("buffer[:,nwrap:blocksize+nwrap].T.flat", "buffer[:,nwrap:nwrap+blocksize].T.flat")
-        ctx.check(bool(ok), R, f, stores[0] if stores else il[0], "channels are interleaved sample by sample (transpose, flat)",
+        stores = [s for s in il[0].body if isinstance(s, ast.Assign) and astq.eq_text(s.targets[0], "data[:nitem]")]
+        ok = stores and astq.in_texts(stores[0].value, ("buffer[:,nwrap:blocksize+nwrap].T.flat", "buffer[:,nwrap:nwrap+blocksize].T.flat",))
+        ctx.check(bool(ok), R, f, stores[0] if stores else MISSING(il[0]), "channels are interleaved sample by sample (transpose, flat)",
                   "emission is %s" % (astq.text(stores[0].value) if stores else None))
         ni = [s for s in il[0].body if isinstance(s, ast.Assign) and astq.is_name(s.targets[0], "nitem")]
-        ctx.check(bool(ni) and astq.text(ni[0].value).replace(" ", "") in ("blocksize*nchan", "nchan*blocksize"), R, f, ni[0] if ni else il[0],
+        ctx.check(bool(ni) and astq.in_texts(ni[0].value, ("blocksize*nchan", "nchan*blocksize",)), R, f, ni[0] if ni else MISSING(il[0]),
                   "a block emits blocksize x nchan samples")
     ch = [s for s in ast.walk(block) if isinstance(s, ast.Assign) and astq.is_name(s.targets[0], "chan")][-1]
-    ctx.check(astq.text(ch.value).replace(" ", "") == "(chan+1)%nchan", R, f, ch, "channels are decoded round-robin", "channel advance is %s" % astq.text(ch.value))
+    ctx.check(astq.eq_text(ch.value, "(chan+1)%nchan"), R, f, ch, "channels are decoded round-robin", "channel advance is %s" % astq.text(ch.value))
 
 
 def _loop_nodes(cfg, block):
